@@ -217,7 +217,8 @@ class World:
 
     async def op_createUpdate(self, b, token, n_jobs, n_groups, u):
         upd = await self.fe._create_batch_update(int(b), f'utok{token}', int(n_jobs), int(n_groups), user(int(u)), self.gdb)
-        return upd[0]
+        # the real function answers (update_id, start_job_group_id, start_job_id); protocol answer: ok <uid> <startJob> <startGroup>
+        return f'{upd[0]} {upd[2]} {upd[1]}'
 
     async def op_insertGroups(self, b, upd, u, *specs):
         gs = []
